@@ -269,6 +269,15 @@ pub fn atom_from_stream<'a>(
         bit_mask >>= 1;
     }
 
+    // A size prefix of more than 6 bytes (first byte 0xfe) is not a valid
+    // encoding; clvm_rs rejects it as well.
+    if bit_count > 6 {
+        return Err(EvalErr::InternalError(
+            NodePtr::NIL,
+            "bad encoding".to_string(),
+        ));
+    }
+
     let mut size_blob = Bytes::new(Some(BytesFromType::Raw(vec![b])));
     if bit_count > 1 {
         let bin = f.read(bit_count - 1);
